@@ -14,7 +14,7 @@ META = {
         "so a field extending past the end makes the shift count negative, which Python rejects (ValueError); D2 that exception is not swallowed: no handler in the decoding routines, "
         "the driver's handler catches it and every path of the handler raises a library exception, the constructor does not catch it; D3 the bit length and the integer image are both "
         "derived from the same stored payload (8*len, int.from_bytes big) and are never reassigned or accessed elsewhere; D4 linear offset threading (an offset reset would re-read earlier "
-        "bits instead of failing) and exact repeat counts (C03-D6: a group that ends early when the payload runs out hides a truncation); widths are non-negative ints (table typing). Truncations that remove only padding bits are outside the property's quantifier."
+        "bits instead of failing) and exact repeat counts (C03-D6: a group that ends early when the payload runs out hides a truncation); widths are non-negative ints (table typing); shared: identity bits (C15-D1) and table dispatch (C10-D4), since a truncated payload must still reach its own definition. Truncations that remove only padding bits are outside the property's quantifier."
     ),
     "trusted": ["CPython ast parser", "Python semantics: a negative shift count raises ValueError", "sa/symeval.py, sa/domains.py"],
 }
@@ -77,3 +77,9 @@ def run(eng, ctx):
     # every announced repetition is decoded (a group that stops early when the payload runs out hides a truncation)
     DEC.groups(eng, ctx, "C03.D6", "C03.D7", "C03.D8", m)
     TR.fields_defined(eng, ctx, "C10.D2")
+    # a truncated payload is rejected only if it is still dispatched to its own definition: the identity (message number, sub-type byte
+    # for the 4076 family as soon as the payload holds it) and the table dispatch are shared obligations
+    from . import shared as SH
+
+    SH.identity_bits(eng, ctx, "C15.D1")
+    TR.dispatch(eng, ctx, "C10.D4")
